@@ -106,8 +106,7 @@ func VerifKBitBuf() {
 			}
 			verifrt.Assert(vkAt(b, from, i) == want, "C10:flush-padding-not-zero")
 		}
-	case 3: // writeEmptyBlock: sync marker
-		verifrt.Assume(preLen <= 61)
+	case 3: // writeEmptyBlock: sync marker (the accumulator may be completely full)
 		b.writeEmptyBlock()
 		n := b.idx - from
 		verifrt.Assert(b.bitLen == 0 && b.bits == 0, "C10:marker-leaves-bits")
